@@ -180,19 +180,32 @@ def r10b(ctx):
     chain = outer.body
 
     def decide(env):
-        stmts = chain
-        while True:
-            progressed = False
+        def run(stmts):
             for s in stmts:
-                if isinstance(s, ast.If) and any(isinstance(x, ast.Return) for x in ast.walk(s)):
-                    stmts = s.body if cli.ev(s.test, env) else s.orelse
-                    progressed = True
-                    break
                 if isinstance(s, ast.Return):
                     v = s.value
                     return (call_name(v) or "").split(".")[-1] if isinstance(v, ast.Call) else ast.unparse(v)
-            if not progressed:
-                return None
+                if isinstance(s, ast.If):
+                    has_ret = any(isinstance(x, ast.Return) for x in ast.walk(s))
+                    assigns = any(isinstance(x, (ast.Assign, ast.AnnAssign)) for x in ast.walk(s))
+                    if not has_ret and not assigns:
+                        continue
+                    try:
+                        branch = s.body if cli.ev(s.test, env) else s.orelse
+                    except cli.Unknown:
+                        if has_ret:
+                            raise
+                        continue      # a branch that only computes display/penalty values
+                    r = run(branch)
+                    if r is not None:
+                        return r
+                elif isinstance(s, (ast.Assign, ast.AnnAssign)):
+                    try:
+                        cli.run_stmts([s], env)
+                    except cli.Unknown:
+                        pass          # locals that do not matter for the selection (penalties)
+            return None
+        return run(chain)
     n = 0
     bad = []
     for allow, same, a, b in itertools.product((True, False), (True, False), range(4), range(4)):
